@@ -30,10 +30,15 @@ structure ModQuirks where
   /-- parser/imports.rs `use2`: `with (…)` is only accepted *before* `as …`; the Sass order
   `@use url as name with (…)` is a parse error -/
   useAsWithRejected : Bool := false
+  /-- the "built-in" mark of a module is the variable `@scope_name@` copied along with the other
+  variables: a `@forward "sass:…"` with a prefix renames it and one with `show` drops it, and
+  `Scope::set_variable` then no longer refuses `ns.$x: v` -/
+  builtinMarkerLost : Bool := false
 
 def modAsIs : ModQuirks :=
   { withUnknownUse := true, withUnknownForward := true, reconfigureIgnored := true,
-    namespaceRaw := true, prefixFilterSwapped := true, useAsWithRejected := true }
+    namespaceRaw := true, prefixFilterSwapped := true, useAsWithRejected := true,
+    builtinMarkerLost := true }
 def modSpec : ModQuirks := {}
 
 inductive Kind where
@@ -167,6 +172,12 @@ def forwardMembers (q : ModQuirks) (pre : Option Name) (e : Expose) (m : Members
   | some p =>
     (m.filter fun x => prefixAllows q e x.kind (norm p ++ x.name)).map fun x =>
       { x with name := norm p ++ x.name }
+
+/-- is a built-in module still recognised as built-in when seen through
+`@forward "sass:…" [as pre*] [show|hide …]`? -/
+def markerSurvives (q : ModQuirks) (pre : Option Name) (e : Expose) : Bool :=
+  if q.builtinMarkerLost then pre.isNone ∧ e.allowVar ['@', 's', 'c', 'o', 'p', 'e', '_', 'n', 'a', 'm', 'e', '@']
+  else true
 
 /-! ## Using a module (`do_use`, `define_module`, `expose_star`, lookups) -/
 
